@@ -2,6 +2,7 @@
 extracted model and specification (ocaml/driver)."""
 import multiprocessing as mp
 import os
+import re
 import time
 
 from . import core
@@ -145,12 +146,24 @@ def spec_verdict(ix, ms):
     return 'ok' if ix == want else 'violation'
 
 
+_SPAN = re.compile(r'\((-?\d+) (\S+) (\S+)\) \((-?\d+) (\S+) (\S+)\)\)')
+
+
+def _zw(m):
+    # the span of an instance that consumed nothing is outside the property (C10): wildcard
+    if int(m.group(4)) < int(m.group(1)):
+        return 'ZW ZW)'
+    return m.group(0)
+
+
 def spec_parse_verdict(ip, mq):
     if mq in ('raise', 'fuel'):
         return 'noclaim'
     if mq == 'perr':
         return 'ok' if ip.startswith('(perr') else 'violation'
-    return 'ok' if ip == mq else 'violation'
+    if ip == mq:
+        return 'ok'
+    return 'ok' if _SPAN.sub(_zw, ip) == _SPAN.sub(_zw, mq) else 'violation'
 
 
 def compare(R, recs, stream, mechanism_of=None, check_parse=True, sample_every=997):
